@@ -504,8 +504,9 @@ pub fn check_world(spec: &RichSpec, l: &mut Local) -> Result<(), String> {
                         }
                     }
                 }
-                // delegates with amount 0 / 1 / 2
-                for n in [0u64, 1, 2] {
+                // delegates with amount 0 / 1 / 2, and amounts that are 1 only after a careless narrowing (the approved amount is not bounded by
+                // the balance: the token program accepts any u64)
+                for n in [0u64, 1, 2, (1 << 8) + 1, (1 << 16) + 1, (1 << 32) + 1, (5 << 32) + 1, (1 << 63) + 1, u64::MAX] {
                     let mut wd = w.clone();
                     if !approve(&mut wd, &tok_program, &tok_account, &attacker_key, &holder_key, n) {
                         l.count("delegate_approval_not_possible(frozen)");
